@@ -191,6 +191,35 @@ def boundary_seed_checks(rep):
                         break
 
 
+def coarse_grained_seed_checks(rep, tier):
+    """The coarse-graining route of simulate(): same script + same seed + same map = same trajectory, and that trajectory is the
+    un-coarse-grained plain run of the coarse-grained system with that very seed."""
+    from strengths import simulate
+    from strengths.coarsegrain import coarsegrain_system, uncoarsegrain_trajectory
+    lib = build.load("plain")
+    nrep = 2 if tier == "quick" else 6
+    for kind in H.KINDS:
+        scripts = SCRIPTS_G if kind == "gillespie" else SCRIPTS
+        for si, sc in enumerate(scripts[:3]):
+            system = engine_rec.get_system(sc["system"], "grid")
+            n = system.space.size()
+            env = list(system.space.cell_env)
+            maps = [list(range(n))] + ([[0] * n] if len(set(env)) == 1 else [])
+            kw = dict(time_step=sc["dt"], sampling_policy=sc["policy"], sampling_interval=sc.get("interval", 1))
+            for cg in maps:
+                for sd in (0, 4242 + si):
+                    outs = [simulate(system, sc["ts"], engine=build.make_engine(kind, lib=lib), rng_seed=sd, cgmap=cg, **kw) for _ in range(nrep)]
+                    rep.case(["coarse-grained-seed", kind, si, cg, sd])
+                    tag = {"kind": kind, "script": sc, "cgmap": cg, "seed": sd}
+                    if any(bits(o.data.value) != bits(outs[0].data.value) or bits(o.t.value) != bits(outs[0].t.value) for o in outs[1:]):
+                        rep.violation("seed", "seed:coarse-grained-run-not-reproducible", tag)
+                        continue
+                    plain = simulate(coarsegrain_system(system, cg), sc["ts"], engine=build.make_engine(kind, lib=lib), rng_seed=sd, **kw)
+                    want = uncoarsegrain_trajectory(plain, system, cg)
+                    if bits(want.data.value) != bits(outs[0].data.value) or bits(want.t.value) != bits(outs[0].t.value):
+                        rep.violation("seed", "seed:coarse-grained-run-is-not-the-plain-run-of-the-coarse-system", tag)
+
+
 def run(tier, selftest=False, only=None):
     rep = Report(PROP, tier)
     rep.rule = ("model: all partitions of the iteration sequence into iterate / iterate_n(k) / run slices interleaved with "
@@ -215,6 +244,7 @@ def run(tier, selftest=False, only=None):
     if sel("seeds"):
         seed_checks(rep, tier, seed)
         boundary_seed_checks(rep)
+        coarse_grained_seed_checks(rep, tier)
     if selftest:
         from . import c10
         c10.self_test(rep)
